@@ -229,6 +229,7 @@ def main(tier):
             V.add("spec:MC_Pipe:" + str(mc["violated"]), {"trace": tlc.counterexample(mc["out"])})
         obs = common.pool_map(observe, cs, initfn=common.import_repo, hard_timeout=120,
                               on_timeout=lambda c: {"pipe": [], "names": c[0], "ev": [{"e": "hang", "j": 0, "pulled": 0, "what": "hard"}]})
+        common.retry_hangs(cs, obs, observe)      # a watchdog firing under load is re-observed alone, with longer alarms
         for o, c in zip(obs, cs):
             if not o["pipe"]:
                 C = catalogue()
